@@ -5,6 +5,7 @@ import (
 	"fmt"
 	"github.com/gr33nbl00d/caddy-revocation-validator/config"
 	"github.com/gr33nbl00d/caddy-revocation-validator/core"
+	"github.com/gr33nbl00d/caddy-revocation-validator/core/verifhook"
 	"github.com/gr33nbl00d/caddy-revocation-validator/crl/crlrepository"
 	"github.com/gr33nbl00d/caddy-revocation-validator/crl/crlstore"
 	"go.uber.org/zap"
@@ -154,6 +155,8 @@ func (c *CRLRevocationChecker) initCRLUpdateTicker() {
 
 }
 func (c *CRLRevocationChecker) updateCRLs(forceUpdate bool) {
+	verifhook.Hit("crl.update.begin")
+	defer verifhook.Hit("crl.update.end")
 	crlUpdateMutex.Lock()
 	defer crlUpdateMutex.Unlock()
 
